@@ -56,6 +56,9 @@ type Contract struct {
 	Pure      bool // calls may appear in specifications
 	Lemma     bool
 	FloatBV   bool
+	// PureFields: function-typed fields (callbacks into the application) assumed not to modify verifier-visible
+	// state; their results are unconstrained.
+	PureFields map[string]bool
 }
 
 // GhostDecl is Go source to be added to the package's ghost file.
@@ -83,7 +86,7 @@ type MemoDecl struct {
 }
 
 var clauseKW = map[string]bool{"ints": true, "safety": true, "requires": true, "ensures": true, "aux": true, "modifies": true,
-	"loop": true, "call": true, "opaque": true, "trusted": true, "inline": true, "pure": true, "float": true}
+	"loop": true, "call": true, "callback": true, "opaque": true, "trusted": true, "inline": true, "pure": true, "float": true}
 
 var reHead = regexp.MustCompile(`^(requires|ensures|aux|invariant|assert|decreases)(\[[^\]]+\])?\s*(.*)$`)
 
@@ -240,6 +243,15 @@ func parseClause(c *Contract, text, loc string) error {
 	case "trusted":
 		c.Opaque = true
 		c.Trusted = strings.TrimSpace(strings.TrimPrefix(text, "trusted"))
+	case "callback":
+		// callback <field> modifies nothing
+		if len(fields) < 2 {
+			return fmt.Errorf("%s: callback <field> modifies nothing", loc)
+		}
+		if c.PureFields == nil {
+			c.PureFields = map[string]bool{}
+		}
+		c.PureFields[fields[1]] = true
 	case "modifies":
 		c.ModGiven = true
 		rest := strings.TrimSpace(strings.TrimPrefix(text, "modifies"))
@@ -429,7 +441,7 @@ func desugarExpr(s string) (string, error) {
 			}
 			inner := s[i+1 : j]
 			var parts []string
-			for _, p := range splitTopLevel(inner, ',') {
+			for _, p := range splitArgs(inner) {
 				if c == '{' {
 					// statement bodies (func literals) — leave, but desugar after 'return'
 					pt := strings.TrimSpace(p)
@@ -458,6 +470,36 @@ func desugarExpr(s string) (string, error) {
 		i++
 	}
 	return out.String(), nil
+}
+
+// splitArgs splits at top-level commas, but keeps the binder list of a quantifier ("forall i int, v string :: e")
+// together with its body.
+func splitArgs(inner string) []string {
+	raw := splitTopLevel(inner, ',')
+	var out []string
+	for k := 0; k < len(raw); k++ {
+		seg := raw[k]
+		t := strings.TrimSpace(seg)
+		t = strings.TrimPrefix(t, "return ")
+		if (strings.HasPrefix(t, "forall ") || strings.HasPrefix(t, "exists ")) && indexTopLevel(seg, "::") < 0 {
+			for k+1 < len(raw) && indexTopLevel(seg, "::") < 0 {
+				k++
+				seg += "," + raw[k]
+			}
+			// the body of a quantifier extends to the end of the enclosing group
+			for k+1 < len(raw) {
+				k++
+				seg += "," + raw[k]
+			}
+		} else if strings.HasPrefix(t, "forall ") || strings.HasPrefix(t, "exists ") {
+			for k+1 < len(raw) {
+				k++
+				seg += "," + raw[k]
+			}
+		}
+		out = append(out, seg)
+	}
+	return out
 }
 
 func matchClose(s string, i int) int {
